@@ -26,6 +26,9 @@ def amount(rng, scale):
     if scale == "dyadic":
         fr = Fraction(k, 4)
         return [fr.numerator, fr.denominator], k / 4
+    if scale == "halfmin":                    # half minutes: sums tie exactly, whole-minute arithmetic would not
+        fr = Fraction(k, 120)
+        return [fr.numerator, fr.denominator], k / 120
     fr = Fraction(k, 10)                      # decimal: 0.1 .. 0.7 are not exact in binary
     return [fr.numerator, fr.denominator], k / 10
 
@@ -42,6 +45,7 @@ def gen_case(rng, n, cid, shape=None, scale="int", links=None):
     for i, t in enumerate(tasks, start=1):
         t["id"] = ids[i - 1]
         t["est"], t["spent"] = NOQ, NOQ
+        t["ms"] = rng.random() < 0.15          # the milestone flag does not change how long a leaf lasts
         r = rng.random()
         if r < 0.85:
             t["est"], e = amount(rng, scale)
@@ -98,7 +102,8 @@ def execute(case):
         e = case["vals"].get("%d.est" % i)
         if mode in (2, 3) and i % 2:
             e = (e or 0) + 1
-        objs[i] = pj.Task(t["id"], name="T%d" % i, estimate=e, spent=case["vals"].get("%d.spent" % i))
+        objs[i] = pj.Task(t["id"], name="T%d" % i, estimate=e, spent=case["vals"].get("%d.spent" % i),
+                          milestone=bool(t.get("ms")))
     w = pj.WBS()
 
     # a summary that is re-parented AFTER the first query (ancestor chains must not be remembered)
@@ -170,14 +175,14 @@ def run(tier, seed, log):
     for n in range(1, maxn + 1):
         shapes = es.small_shapes(n)
         for shape in shapes:
-            for scale in ("int", "dyadic", "decimal"):
+            for scale in ("int", "dyadic", "decimal", "halfmin"):
                 for _ in range(4 if n < 5 else 2):
                     c = gen_case(rng, n, cid, shape, scale)
                     if not has_cycle(c["I"]):
                         cases.append(c)
                         cid += 1
     for _ in range(1500 if tier == "quick" else 20000):
-        c = gen_case(rng, rng.choice([3, 4, 5, 6, 7, 8]), cid, None, rng.choice(["int", "dyadic", "decimal"]))
+        c = gen_case(rng, rng.choice([3, 4, 5, 6, 7, 8]), cid, None, rng.choice(["int", "dyadic", "decimal", "halfmin"]))
         if not has_cycle(c["I"]):
             cases.append(c)
             cid += 1
@@ -223,7 +228,7 @@ def evidence(prop, res):
         "traces_validated_against_impl": cov["cases"], "evaluations": cov["cases"],
         "distinct_nontrivial": cov["nontrivial"],
         "rule": "every forest shape of <= 4 (quick) / 5 (thorough) tasks x seeded link placements on leaves and "
-                "summaries x durations with ties, zeros and spent > estimate on integer, dyadic and decimal scales, "
+                "summaries x durations with ties, zeros and spent > estimate on integer, dyadic, decimal and half-minute scales, milestone flags, "
                 "plus seeded random WBSs of 3-8 tasks; non-trivial = at least one dependency link; distinct draws",
         "samples": cov["samples"], "exhaustive": False,
         "links_touching_summaries": cov["summary_links"],
